@@ -62,6 +62,9 @@ type streamObs struct {
 	discard   string
 	stalled   bool
 	reads     int
+	hung      string // the receiver neither finished nor waits for input
+	sendOnly  string // the receiving side could not be set up: only the sending side is evaluated
+	shortSend bool   // a Send reported more bytes than reached the wire
 }
 
 var (
@@ -162,15 +165,21 @@ func receiveConn(segs [][]byte, pl *pool) (o streamObs) {
 			o.evsHuman = append(o.evsHuman, "end")
 			o.reads = sconn.reads
 			return o
-		default:
+		case xerrors.Is(err, network.ErrTooBig):
 			o.evs = append(o.evs, "CTooBig")
-			o.evsHuman = append(o.evsHuman, "refused-without-reading("+errClass(err)+")")
+			o.evsHuman = append(o.evsHuman, "refused-without-reading(too big)")
 			o.closed = true
+			o.reads = sconn.reads
+			return o
+		default:
+			// an error of no known class is its own observation, never a stand-in for an expected one
+			o.evs = append(o.evs, "COther")
+			o.evsHuman = append(o.evsHuman, "error of unknown class: "+err.Error())
 			o.reads = sconn.reads
 			return o
 		}
 	}
-	o.crash = "Receive loop does not end"
+	o.hung = "the Receive loop did not end after 1000000 calls"
 	return o
 }
 
@@ -216,7 +225,10 @@ func receiveRouter(segs [][]byte) (o streamObs) {
 	attachSeq++
 	remote := genIdentity(800000 + attachSeq%50)
 	if err := b.VerifAttach(remote, rc); err != nil {
-		o.discard = "attach: " + err.Error()
+		logMu.Lock()
+		currentLog = nil
+		logMu.Unlock()
+		o.sendOnly = "the router refused the connection: " + err.Error()
 		return o
 	}
 	select {
@@ -224,8 +236,9 @@ func receiveRouter(segs [][]byte) (o streamObs) {
 		o.closed = false
 	case <-sconn.done:
 		o.closed = true
-	case <-time.After(20 * time.Second):
-		o.discard = "router did not consume the stream within 20 s"
+	case <-time.After(60 * time.Second):
+		// not a reason to drop the case: what was dispatched so far is the observation
+		o.hung = "handleConn neither consumed the stream nor closed the connection within 60 s"
 	}
 	logMu.Lock()
 	currentLog = nil
@@ -350,9 +363,9 @@ func runTCP(in *Input, items []sentItem, pl *pool, identIdx *int, coqItems *[]st
 		case it.kind == "msg" && A != nil:
 			if first {
 				// the identity goes out in front of the first message
-				idb, err := network.Marshal(A.ServerIdentity)
+				idb, err := canonical(A.ServerIdentity)
 				if err != nil {
-					o.discard = "identity does not marshal"
+					o.discard = "the oracle encoder has no encoding for the identity"
 					return o
 				}
 				*identIdx = pl.add(idb)
@@ -362,9 +375,12 @@ func runTCP(in *Input, items []sentItem, pl *pool, identIdx *int, coqItems *[]st
 			n, err := A.Send(siBviaProxy, it.value)
 			o.sends = append(o.sends, err == nil)
 			expect += int(n)
-			if !pb.waitLen(expect, 10*time.Second) {
-				o.discard = "proxy did not receive what Send reported"
-				return o
+			if !pb.waitLen(expect, 20*time.Second) {
+				// Send reported more than reached the wire: go on with what is there
+				o.shortSend = true
+				pb.mu.Lock()
+				expect = len(pb.buf)
+				pb.mu.Unlock()
 			}
 		default:
 			pb.add(it.bytes)
@@ -378,7 +394,7 @@ func runTCP(in *Input, items []sentItem, pl *pool, identIdx *int, coqItems *[]st
 
 	down, err := net.Dial("tcp", addrB.NetworkAddress())
 	if err != nil {
-		o.discard = "dial B: " + err.Error()
+		o.sendOnly = "cannot reach the listening router: " + err.Error()
 		return o
 	}
 	closedByB := make(chan struct{})
@@ -454,7 +470,7 @@ wait:
 		q, ok := rxQueue(bPort, myPort)
 		now := time.Now()
 		switch {
-		case !ok && now.Sub(start) > 1500*time.Millisecond:
+		case !ok && now.Sub(start) > 4*time.Second:
 			o.stalled = true
 			break wait
 		case ok && q == 0 && cnt == lastCount:
@@ -468,8 +484,9 @@ wait:
 			idleSince = time.Time{}
 		}
 		lastCount = cnt
-		if now.Sub(start) > 30*time.Second {
-			o.discard = "receiver did not finish within 30 s"
+		if now.Sub(start) > 60*time.Second {
+			// bytes are still unread after a minute: the receiver is wedged
+			o.hung = "the receiving router left bytes unread for 60 s"
 			break
 		}
 		time.Sleep(time.Millisecond)
@@ -506,9 +523,11 @@ func runStream(in *Input) lib.Case {
 		switch is.Kind {
 		case "msg":
 			v := genValue(is.Val, &pl.ctx)
-			mb, err := network.Marshal(v)
+			// what a correct sender puts in the frame: from the encoding library
+			// directly, never from the Marshal under test
+			mb, err := canonical(v)
 			if err != nil {
-				return lib.Case{Discard: true}
+				return lib.Case{Discard: true, Obs: "generated value has no encoding: " + err.Error()}
 			}
 			k := pl.add(mb)
 			items = append(items, sentItem{coq: fmt.Sprintf("IMsg %d", k), k: k, value: v, kind: "msg", bytes: frameOf(mb)})
@@ -573,7 +592,15 @@ func runStream(in *Input) lib.Case {
 		o = runTCP(in, items, pl, &identIdx, &coqItems)
 	}
 	if o.discard != "" {
+		// only reached before anything was observed (a listener of the harness could not be opened)
 		return lib.Case{Discard: true, Obs: o.discard}
+	}
+	if o.sendOnly != "" {
+		lv = "LSend"
+		tag += "+send-only"
+	}
+	if o.hung != "" {
+		tag += "+hung"
 	}
 	if in.Level == "tcp" && in.NoIdent {
 		// bytes written straight to the listening router: the identity, if any, was written raw
@@ -588,16 +615,18 @@ func runStream(in *Input) lib.Case {
 	for _, d := range o.delivered {
 		dIdx = append(dIdx, pl.valueIndex(d.msg))
 	}
-	valeq := true
+	valeq, tyeq := true, true
 	used := make([]bool, len(items))
 	for i, d := range o.delivered {
+		if want, ok := harnessIDOf(d.msg); !ok || want != d.id {
+			tyeq = false
+		}
 		for j, it := range items {
 			if used[j] || it.k < 0 || it.value == nil || pl.dres[it.k] != dIdx[i] {
 				continue
 			}
 			used[j] = true
-			want, ok := idOfValue(it.value)
-			if !valuesEqual(it.value, d.msg) || !ok || want != d.id {
+			if !valuesEqual(it.value, d.msg) {
 				valeq = false
 			}
 			break
@@ -635,9 +664,10 @@ func runStream(in *Input) lib.Case {
 	if identIdx >= 0 {
 		ident = fmt.Sprintf("(Some %d)", identIdx)
 	}
-	coq := fmt.Sprintf("CStream %s %d%%N %s\n    %s\n    [%s]\n    (%s) %s %s\n    [%s] %s %s %s %s",
+	coq := fmt.Sprintf("CStream %s %d%%N %s\n    %s\n    [%s]\n    (%s) %s %s\n    [%s] %s %s %s %s %s %s",
 		lv, in.Limit, ident, poolCoq, strings.Join(coqItems, "; "), cuts, chw.encode(o.wire), boolList(o.sends),
-		strings.Join(o.evs, "; "), natList(dIdx), coqBool(o.closed), coqBool(valeq), coqBool(o.crash != ""))
+		strings.Join(o.evs, "; "), natList(dIdx), coqBool(o.closed), coqBool(valeq), coqBool(tyeq),
+		coqBool(o.crash != ""), coqBool(o.hung != ""))
 	obs := map[string]interface{}{
 		"wire_bytes":    len(o.wire),
 		"segments":      len(cutSegments(o.wire, in.Cuts, in.Every)),
@@ -645,6 +675,16 @@ func runStream(in *Input) lib.Case {
 		"delivered":     describeDelivered(o.delivered),
 		"closed_by_rcv": o.closed,
 		"values_equal":  valeq,
+		"types_match":   tyeq,
+	}
+	if o.hung != "" {
+		obs["hung"] = o.hung
+	}
+	if o.sendOnly != "" {
+		obs["send_only"] = o.sendOnly
+	}
+	if o.shortSend {
+		obs["short_send"] = "a Send reported more bytes than reached the wire within 20 s"
 	}
 	if in.Level == "conn" {
 		obs["receive_results"] = o.evsHuman
@@ -660,11 +700,6 @@ func runStream(in *Input) lib.Case {
 	}
 	return lib.Case{Coq: coq, Class: in.Level + "-" + tag, Obs: obs,
 		Nontrivial: len(o.wire) > 4, Key: fmt.Sprintf("%s|%x|%v|%d", in.Level, o.wire, in.Cuts, in.Every)}
-}
-
-func idOfValue(v interface{}) (network.MessageTypeID, bool) {
-	id := network.MessageType(v)
-	return id, id != network.ErrorType
 }
 
 func describeDelivered(ds []delivered) []string {
@@ -696,7 +731,7 @@ func runDecode(in *Input) lib.Case {
 	}
 	b := buildPayload(in.Payload, &pl.ctx)
 	k := pl.add(b)
-	obsCoq, human, valeq := "DOError", "error", true
+	obsCoq, human, valeq, tyeq := "DOError", "error", true, true
 	func() {
 		defer func() {
 			if r := recover(); r != nil {
@@ -710,9 +745,8 @@ func runDecode(in *Input) lib.Case {
 		}
 		j := pl.valueIndex(msg)
 		obsCoq, human = fmt.Sprintf("(DOValue %d)", j), fmt.Sprintf("value %T", msg)
-		want, ok := idOfValue(msg)
-		if !ok || want != id {
-			valeq = false
+		if want, ok := harnessIDOf(msg); !ok || want != id {
+			tyeq = false
 		}
 		if orig != nil && !valuesEqual(orig, msg) {
 			valeq = false
@@ -722,9 +756,9 @@ func runDecode(in *Input) lib.Case {
 		}
 	}()
 	ch := &chunker{fills: pl.ctx.fills}
-	coq := fmt.Sprintf("CDecode %s %d %s %s", pl.coq(ch), k, obsCoq, coqBool(valeq))
+	coq := fmt.Sprintf("CDecode %s %d %s %s %s", pl.coq(ch), k, obsCoq, coqBool(valeq), coqBool(tyeq))
 	return lib.Case{Coq: coq, Class: "decode-" + in.Tag,
-		Obs:        map[string]interface{}{"input": shortHex(b), "result": human, "values_equal": valeq},
+		Obs:        map[string]interface{}{"input": shortHex(b), "result": human, "values_equal": valeq, "types_match": tyeq},
 		Nontrivial: len(b) > 0, Key: fmt.Sprintf("d|%x", b)}
 }
 
@@ -761,9 +795,9 @@ func runLocal(in *Input) (c lib.Case) {
 	want := 0
 	for _, is := range in.Items {
 		v := genValue(is.Val, &pl.ctx)
-		mb, err := network.Marshal(v)
+		mb, err := canonical(v)
 		if err != nil {
-			continue
+			panic("generated value has no encoding: " + err.Error())
 		}
 		idx = append(idx, pl.add(mb))
 		vals = append(vals, v)
@@ -774,7 +808,9 @@ func runLocal(in *Input) (c lib.Case) {
 		}
 	}
 	// the queue is drained by B's handleConn; the last message is a sentinel
-	deadline := time.Now().Add(5 * time.Second)
+	// (a message that never arrives is an observation: after the deadline the
+	// case is evaluated with what did arrive)
+	deadline := time.Now().Add(30 * time.Second)
 	for {
 		logMu.Lock()
 		n := len(dl)
@@ -784,7 +820,7 @@ func runLocal(in *Input) (c lib.Case) {
 		}
 		time.Sleep(200 * time.Microsecond)
 	}
-	time.Sleep(2 * time.Millisecond) // anything beyond the expected count shows up here
+	time.Sleep(5 * time.Millisecond) // anything beyond the expected count shows up here
 	logMu.Lock()
 	currentLog = nil
 	got := append([]delivered{}, dl...)
@@ -792,16 +828,18 @@ func runLocal(in *Input) (c lib.Case) {
 	A.Stop()
 	B.Stop()
 	var dIdx []int
-	valeq := true
+	valeq, tyeq := true, true
 	usedL := make([]bool, len(vals))
 	for _, d := range got {
 		j := pl.valueIndex(d.msg)
 		dIdx = append(dIdx, j)
+		if wantID, ok := harnessIDOf(d.msg); !ok || wantID != d.id {
+			tyeq = false
+		}
 		for i := range vals {
 			if !usedL[i] && pl.dres[idx[i]] == j {
 				usedL[i] = true
-				wantID, ok := idOfValue(vals[i])
-				if !valuesEqual(vals[i], d.msg) || !ok || wantID != d.id {
+				if !valuesEqual(vals[i], d.msg) {
 					valeq = false
 				}
 				break
@@ -809,9 +847,10 @@ func runLocal(in *Input) (c lib.Case) {
 		}
 	}
 	ch := &chunker{fills: pl.ctx.fills}
-	coq := fmt.Sprintf("CLocal %s %s %s %s %s false", pl.coq(ch), natList(idx), boolList(sends), natList(dIdx), coqBool(valeq))
+	coq := fmt.Sprintf("CLocal %s %s %s %s %s %s false", pl.coq(ch), natList(idx), boolList(sends), natList(dIdx), coqBool(valeq), coqBool(tyeq))
 	return lib.Case{Coq: coq, Class: "local-" + in.Tag,
-		Obs:        map[string]interface{}{"sent": len(idx), "delivered": describeDelivered(got), "values_equal": valeq},
+		Obs: map[string]interface{}{"sent": len(idx), "sends_ok": sends, "delivered": describeDelivered(got),
+			"values_equal": valeq, "types_match": tyeq},
 		Nontrivial: len(idx) > 0, Key: fmt.Sprintf("l|%v|%s", idx, coq)}
 }
 
@@ -831,9 +870,9 @@ func runConc(in *Input) lib.Case {
 		var irow []int
 		for i := range s {
 			v := genValue(&s[i], &pl.ctx)
-			mb, err := network.Marshal(v)
+			mb, err := canonical(v)
 			if err != nil {
-				return lib.Case{Discard: true}
+				return lib.Case{Discard: true, Obs: "generated value has no encoding: " + err.Error()}
 			}
 			k := pl.add(mb)
 			row = append(row, sent{v, k})
@@ -846,7 +885,8 @@ func runConc(in *Input) lib.Case {
 	sendsBy := make([][]bool, len(all))
 	var got []delivered
 	var wireSeen []byte
-	crash := ""
+	crash, note := "", ""
+	openerFailed := false
 	switch in.Level {
 	case "conn":
 		cap := newScriptConn(nil, true)
@@ -867,6 +907,9 @@ func runConc(in *Input) lib.Case {
 		wireSeen = append([]byte{}, cap.wrote.Bytes()...)
 		o := receiveConn(cutSegments(wireSeen, nil, 997), pl)
 		got, crash = o.delivered, o.crash
+		if o.hung != "" {
+			note = o.hung
+		}
 	case "tcp":
 		var dl []delivered
 		logMu.Lock()
@@ -875,7 +918,7 @@ func runConc(in *Input) lib.Case {
 		sidB := network.NewServerIdentity(genIdentity(900002).Public, network.NewTCPAddress("127.0.0.1:0"))
 		hostB, err := network.NewTCPHost(sidB, ed25519)
 		if err != nil {
-			return lib.Case{Discard: true}
+			return lib.Case{Discard: true, Obs: "listen: " + err.Error()} // nothing observed yet
 		}
 		sidB = network.NewServerIdentity(sidB.Public, hostB.Address())
 		B := network.NewRouter(sidB, hostB)
@@ -889,18 +932,22 @@ func runConc(in *Input) lib.Case {
 		hostA, err := network.NewTCPHost(sidA, ed25519)
 		if err != nil {
 			B.Stop()
-			return lib.Case{Discard: true}
+			return lib.Case{Discard: true, Obs: "listen: " + err.Error()} // nothing observed yet
 		}
 		A := network.NewRouter(sidA, hostA)
 		A.UnauthOk, A.Quiet = true, true
 		// open the connection first: concurrent first Sends would each connect
 		if _, err := A.Send(sidB, &Sentinel{Seq: 424242}); err != nil {
-			A.Stop()
-			B.Stop()
-			return lib.Case{Discard: true}
+			// a Send that fails on a fresh connection to a listening router IS the
+			// observation: the case is evaluated with nothing delivered
+			openerFailed = true
+			note = "the Send that opens the connection failed: " + err.Error()
 		}
 		var wg sync.WaitGroup
 		for g := range all {
+			if openerFailed {
+				break
+			}
 			wg.Add(1)
 			go func(g int) {
 				defer wg.Done()
@@ -911,7 +958,10 @@ func runConc(in *Input) lib.Case {
 			}(g)
 		}
 		wg.Wait()
-		deadline := time.Now().Add(5 * time.Second)
+		deadline := time.Now().Add(30 * time.Second)
+		if openerFailed {
+			deadline = time.Now()
+		}
 		for {
 			logMu.Lock()
 			n := len(dl)
@@ -921,35 +971,50 @@ func runConc(in *Input) lib.Case {
 			}
 			time.Sleep(300 * time.Microsecond)
 		}
-		time.Sleep(2 * time.Millisecond)
+		time.Sleep(5 * time.Millisecond)
 		logMu.Lock()
 		currentLog = nil
+		openerSeen := false
 		for _, d := range dl {
-			if s, ok := d.msg.(*Sentinel); ok && s.Seq == 424242 {
+			// the opener is expected exactly once, in front; a second copy stays in the log
+			if s, ok := d.msg.(*Sentinel); ok && s.Seq == 424242 && !openerSeen && len(got) == 0 {
+				openerSeen = true
 				continue
 			}
 			got = append(got, d)
 		}
 		logMu.Unlock()
+		if !openerSeen && !openerFailed {
+			note = "the message that opened the connection was not the first delivery"
+			// the loss of the opener must not be hidden by stripping it: a stand-in that
+			// no sender sent makes the delivered list differ from every merge
+			sid, _ := harnessIDOf(&Sentinel{})
+			got = append([]delivered{{sid, &Sentinel{Seq: 424243}}}, got...)
+		}
 		A.Stop()
 		B.Stop()
 	}
 	var sends []bool
+	if openerFailed {
+		sends = append(sends, false)
+	}
 	for _, r := range sendsBy {
 		sends = append(sends, r...)
 	}
 	var dIdx []int
-	valeq := true
+	valeq, tyeq := true, true
 	used := map[[2]int]bool{}
 	for _, d := range got {
 		j := pl.valueIndex(d.msg)
 		dIdx = append(dIdx, j)
+		if want, ok := harnessIDOf(d.msg); !ok || want != d.id {
+			tyeq = false
+		}
 		for g := range all {
 			for i, m := range all[g] {
 				if !used[[2]int{g, i}] && pl.dres[m.k] == j {
 					used[[2]int{g, i}] = true
-					want, ok := idOfValue(m.v)
-					if !valuesEqual(m.v, d.msg) || !ok || want != d.id {
+					if !valuesEqual(m.v, d.msg) {
 						valeq = false
 					}
 					goto next
@@ -968,11 +1033,15 @@ func runConc(in *Input) lib.Case {
 		chw := &chunker{fills: pl.ctx.fills, pool: pl.entries}
 		owire = "(Some " + chw.encode(wireSeen) + ")"
 	}
-	coq := fmt.Sprintf("CConc %s [%s] %s %d%%N %s %s %s %s", pl.coq(ch), strings.Join(rows, "; "), boolList(sends),
-		uint32(network.MaxPacketSize), owire, natList(dIdx), coqBool(valeq), coqBool(crash != ""))
-	obs := map[string]interface{}{"senders": len(all), "sent": total, "delivered": describeDelivered(got), "values_equal": valeq}
+	coq := fmt.Sprintf("CConc %s [%s] %s %d%%N %s %s %s %s %s", pl.coq(ch), strings.Join(rows, "; "), boolList(sends),
+		uint32(network.MaxPacketSize), owire, natList(dIdx), coqBool(valeq), coqBool(tyeq), coqBool(crash != ""))
+	obs := map[string]interface{}{"senders": len(all), "sent": total, "sends_ok": sends, "delivered": describeDelivered(got),
+		"values_equal": valeq, "types_match": tyeq}
 	if crash != "" {
 		obs["crash"] = crash
+	}
+	if note != "" {
+		obs["note"] = note
 	}
 	return lib.Case{Coq: coq, Class: in.Level + "-" + in.Tag, Obs: obs, Nontrivial: total > 1, Key: coq}
 }
